@@ -172,8 +172,9 @@ Definition flag_group_here (close : N) (s : str) : option nat :=
     end
   else None.
 
-(* ReplaceAllLiteralString(s, "") for \(\?[-misU]+\) : leftmost, non-overlapping *)
-Fixpoint strip_flag_starts_aux (fuel : nat) (s : str) : str :=
+(* removeUnescapedMatches for \(\?[-misU]+\) : leftmost, non-overlapping matches whose parenthesis
+   is NOT escaped are removed; escaping is judged on the ORIGINAL text ([before_rev] = what precedes) *)
+Fixpoint strip_flag_starts_aux (fuel : nat) (before_rev s : str) : str :=
   match fuel with
   | O => s
   | S f =>
@@ -181,12 +182,14 @@ Fixpoint strip_flag_starts_aux (fuel : nat) (s : str) : str :=
     | [] => []
     | c :: s' =>
       match flag_group_here 41 s with
-      | Some n => strip_flag_starts_aux f (skipn n s)
-      | None => c :: strip_flag_starts_aux f s'
+      | Some n =>
+        if is_escaped_rev before_rev then c :: strip_flag_starts_aux f (c :: before_rev) s'
+        else strip_flag_starts_aux f (rv (firstn n s) ++ before_rev) (skipn n s)
+      | None => c :: strip_flag_starts_aux f (c :: before_rev) s'
       end
     end
   end.
-Definition strip_flag_starts (s : str) : str := strip_flag_starts_aux (S (length s)) s.
+Definition strip_flag_starts (s : str) : str := strip_flag_starts_aux (S (length s)) [] s.
 
 (* the leftmost match of \(\?[-misU]+: at or after position i whose parenthesis is NOT escaped:
    (start, end).  [before_rev] = input[:i] reversed, [rest] = input[i:] *)
